@@ -171,6 +171,13 @@ def run(ctx):
                         "(the FASTQ / FASTA indexers turn these counts into file offsets)")
     a5.consume_accounting_rule(ctx, "C12.R10", 18)
 
+    ctx.rule("C12.R12", "A9 the header sub-readers (the line-prefix state machines of vcf, bcf, bam, cram; sync and async) keep the same state "
+                        "across fill_buf windows: every copy performs the same is_eol / prefix updates per trait method — a copy that forgets "
+                        "to clear is_eol when a window holds no line feed tests the first byte of a line's continuation against the prefix "
+                        "(the rule of C09.R8, decided here for the chunk-independence clause)")
+    from .. import a9 as _a9
+    _a9.header_reader_agreement(ctx, "C12.R12", r"noodles_(vcf|bcf|bam|cram|sam)::", 12)
+
     ctx.rule("C12.R5", "line readers: LF/CR popped only after read_until/read_line and on the ends_with edge")
     n = 0
     for k, f in sorted(fb.fns.items()):
